@@ -942,6 +942,43 @@ pub fn special_slippage(w: &World, s: &mut Src, _prof: &Profile, gs: &mut GenSta
     }
     let p = s.idx(w.pairs.len());
     let (r0, r1, sup) = w.pool(p);
+    if sup == 0 && s.chance(1, 2) {
+        // An unminted pair: reserves can only come from plain transfers.  Build that state up (send the side
+        // that is still empty), and once both sides hold something let a whitelisted actor open the pair WITH
+        // a tolerance - the guard must judge the deposit against those reserves like against any others.
+        let pr = &w.pairs[p];
+        let donor = w.holders()[s.idx(w.holders().len())].to_string();
+        for (i, r) in [(0usize, r0), (1usize, r1)] {
+            if r == 0 {
+                let wd = 1 + s.below(40) as u32;
+                let amt = 1 + s.bits_u128(wd);
+                return Some(match &pr.infos[i] {
+                    AssetInfo::NativeToken { denom } => Step { sender: donor, call: Call::Bank { to: pr.addr.to_string(), coins: vec![Coin { denom: denom.clone(), amount: Uint128::new(amt) }] }, funds: vec![] },
+                    AssetInfo::Token { contract_addr } => Step { sender: donor, call: Call::Cw20 { token: contract_addr.clone(), msg: Cw20ExecuteMsg::Transfer { recipient: pr.addr.to_string(), amount: Uint128::new(amt) } }, funds: vec![] },
+                });
+            }
+        }
+        let actor = if pr.cfg.whitelist.is_empty() { w.actors[s.idx(w.actors.len())].to_string() } else { w.actors[pr.cfg.whitelist[s.idx(pr.cfg.whitelist.len())]].to_string() };
+        let wd0 = 1 + s.below(50) as u32;
+        let wd1 = 1 + s.below(50) as u32;
+        let d0 = (1 + s.bits_u128(wd0)).max(pr.cfg.minimum[0]);
+        let d1 = match s.below(3) {
+            0 => n(d0).mul(&n(r1)).div_ceil(&n(r0)).to_u128().unwrap_or(u128::MAX).max(1), // proportional to the donated reserves
+            1 => d0,
+            _ => 1 + s.bits_u128(wd1),
+        }
+        .max(pr.cfg.minimum[1]);
+        let tol = match s.weighted(&[2, 2, 2, 3]) {
+            0 => 0,
+            1 => E18 / 100,
+            2 => E18 / 2,
+            _ => gen_rate_atomics(s),
+        };
+        let assets = [Asset { info: pr.infos[0].clone(), amount: Uint128::new(d0) }, Asset { info: pr.infos[1].clone(), amount: Uint128::new(d1) }];
+        let mut funds: Vec<Coin> = assets.iter().filter_map(|a| if let AssetInfo::NativeToken { denom } = &a.info { Some(Coin { denom: denom.clone(), amount: a.amount }) } else { None }).collect();
+        funds.sort_by(|a, b| a.denom.cmp(&b.denom));
+        return Some(Step { sender: actor, call: Call::Pair { pair: p, msg: PairExec::ProvideLiquidity { assets, slippage_tolerance: Some(Decimal::new(Uint128::new(tol))), receiver: None } }, funds });
+    }
     if sup > 0 && r0 > 0 && r1 > 0 && gs.pending_provides.len() < 4 {
         let actor = w.actors[s.idx(w.actors.len())].to_string();
         let b0 = w.balance(&w.pairs[p].infos[0], &actor);
